@@ -184,6 +184,12 @@ def execute(sc, ctx):
             if hs.hash_value != model.ref_digest("md5-dos2unix", d):
                 ctx.violate("dos2unix-digest-wrong", variant + (":binary-tail" if b"\x00" in d[512:] and b"\x00" not in d[:512] else ""),
                             f"len={len(d)}")
+        # case variants of the legacy name select the legacy algorithm, like those of any other name
+        for nm in ("MD5-DOS2UNIX", "Md5-Dos2Unix"):
+            got = fobj_md5(SimReader(data, srng, short=False), name=nm)
+            streams += 1
+            if got != model.ref_digest("md5-dos2unix", data):
+                ctx.violate("dos2unix-digest-wrong", "case-variant-of-the-name", f"{nm} len={len(data)}")
         # the legacy stream over a SHORT-reading source: its digest is only claimed for one full read,
         # but it must still hand on exactly the bytes it consumed
         src = SimReader(data, srng)
